@@ -1,6 +1,7 @@
 import ModbusModel.Lemmas.Encode
 import ModbusModel.Lemmas.Tcp
 import ModbusModel.Lemmas.Effects
+import ModbusModel.Model.Server
 /-
   C09 – Oversized PDUs are refused before sending; PDUs up to 253 bytes go out intact.
 -/
@@ -32,6 +33,27 @@ theorem oversize_response_encoders (r : Response) (hdr : TcpHeader) (slave : UIn
     tcpEncodeResponse hdr (.ok r) = .err .invalidInput ∧ rtuEncodeResponse slave (.ok r) = .err .invalidInput := by
   have := (response_refused_iff r).mpr h
   simp [tcpEncodeResponse, rtuEncodeResponse, responseResultPduSize, this]
+
+/-- **an oversized service response is never written and ends the connection with one error**:
+    the request has been handed to the service, the reply it returns would exceed 253 bytes –
+    the connection task ends `failed invalidInput`, the trace shows the call and no write, and
+    nothing reached the transport -/
+theorem oversize_response_ends_connection (k : Kind) (svc : Service) (fuel idx : Nat) (f : ServerFramed)
+    (t : Transport) (tr : List SrvEvent) (hdr : Hdr) (req : Request) (fd : FrameDecoder) (r : ReadFrame)
+    (evs : List ReadEv) (rsp : Response)
+    (h : awaitNext (serverDecoder k) f.fd f.read t.reads = (.item (hdr, req), fd, r, evs))
+    (hs : responseFor req.functionCode (svc idx hdr.unit req) = some (.ok rsp))
+    (hw : f.wbuf = []) (hbig : (encodeResponsePdu rsp).length > 253) :
+    (processLoop k svc (fuel + 1) idx f t tr).1 = .failed .invalidInput
+    ∧ (processLoop k svc (fuel + 1) idx f t tr).2.1 = tr ++ [.call hdr.unit req]
+    ∧ (processLoop k svc (fuel + 1) idx f t tr).2.2.2.writes = t.writes := by
+  have he : serverEncode k hdr (.ok rsp) = .err .invalidInput := by
+    have h2 := oversize_response_encoders rsp { transactionId := hdr.tid, unitId := hdr.unit } hdr.unit hbig
+    cases k
+    · simpa [serverEncode] using h2.1
+    · simpa [serverEncode] using h2.2
+  have h8 : ¬ (BACKPRESSURE_BOUNDARY ≤ 0) := by simp [BACKPRESSURE_BOUNDARY]
+  refine ⟨?_, ?_, ?_⟩ <;> simp [processLoop, h, hs, hw, he, h8, effectsToEvents]
 
 /-- **oversize_refused**: a call whose request would exceed 253 bytes fails with an
     InvalidInput transport error without a single byte reaching the transport; the client
